@@ -131,6 +131,7 @@ def base_state(s):
     partial usage, project / user / consumer type already recorded."""
     from pv import scenarios
     scenarios.basic_tree(s)
+    s.invs('p3', VCPU=4, DISK_GB=scenarios.INV(50, reserved=10), MEMORY_MB=64)
     s.do(op='trait_put', v=39, name='CUSTOM_T1')
     s.do(op='rp_traits_put', v=39, u='p3', gen=s.gen('p3'), traits=['HW_CPU_X86_AVX'])
     s.do(op='agg_put', v=39, u='p3', gen=s.gen('p3'), aggs=['agg1'])
@@ -314,6 +315,8 @@ def worker(job):
     meta = {}
     t0 = time.time()
     complete = 0
+    observed = {}
+    complete_idx = []
     for idx in job['indices']:
         label, areqs = corp[idx]
         limit = job['limit3'] if len(areqs) > 2 else job['limit']
@@ -326,7 +329,14 @@ def worker(job):
                           'commits': o['commits'], 'final': o['final']})
             meta[lid] = {'label': label, 'schedule': ''.join(o['schedule']),
                          'executed': o['executed']}
+            key = json.dumps([[r['status'] for r in o['resps']], o['final']], sort_keys=True)
+            ob = observed.setdefault(idx, {})
+            if key not in ob:
+                ob[key] = {'statuses': [r['status'] for r in o['resps']],
+                           'final': o['final'], 'schedule': ''.join(o['schedule'])}
         complete += 1 if ex.complete else 0
+        if ex.complete:
+            complete_idx.append(idx)
     t_run = time.time() - t0
     verdicts, wall = validate(lines) if lines else ({}, 0)
     bad = []
@@ -346,5 +356,64 @@ def worker(job):
                         'commits_by': [c['who'] for c in ln['commits']]})
     return {'n': len(lines), 'races': len(job['indices']), 'complete': complete,
             'bad': bad, 'outcomes': outcomes, 't_run': t_run, 't_tlc': wall,
+            'observed': {i: list(d.values()) for i, d in observed.items()},
+            'complete_idx': complete_idx,
             'sample': [{'race': meta[1]['label'], 'schedule': meta[1]['schedule'],
                         'statuses': [r['status'] for r in lines[0]['resps']]}] if lines else []}
+
+
+# ---------------------------------------------------------------------------
+# Tx.tla over the same corpus (design level + conformance of outcomes)
+
+def race_known_tag(areqs, db0):
+    """Races on which Tx.tla's serializability invariant is not demanded:
+    DELETE /allocations carries no generation and is outside C06/C07's
+    quantifier (two DELETEs both answer 204); F11 is the recorded finding."""
+    if any(r['op'] == 'alloc_del' for r in areqs):
+        return 'DEL'
+    for r in areqs:
+        ents = [r] if r['op'] == 'alloc_put' else r.get('entries', [])
+        if r['op'] not in ('alloc_put', 'alloc_post', 'reshape'):
+            continue
+        for e in ents:
+            if e.get('cgen') == 0 and e['c'] not in db0['cons']:
+                return 'F11'
+    return ''
+
+
+def corpus_with_state(kind, tier, seed):
+    """(db0, corpus) built against the real application (deterministic)."""
+    import random as _random
+    from pv.app import get_app
+    from pv import scenarios
+    app = get_app()
+    rec = tracemod.Recorder(app)
+    rec.new_history()
+    s = scenarios.S(rec, _random.Random(0))
+    base_state(s)
+    db0 = rec.state()[0]
+    return db0, corpus(kind, s, tier, _random.Random(seed))
+
+
+def run_tx_model(races, cfg='TxRaces.cfg', timeout=3000, workers=8):
+    """races: list of dicts [id, db0, reqs, known, observed].  Returns
+    (ok, stats, report, tail) where report maps race id -> list of (hit set,
+    statuses) over the terminal states TLC reached."""
+    d = tempfile.mkdtemp(prefix='pv-tx-')
+    try:
+        path = os.path.join(d, 'races.ndjson')
+        with open(path, 'w') as f:
+            for r in races:
+                f.write(json.dumps(r, sort_keys=True))
+                f.write('\n')
+        rc, out, wall = tlc.run('TxRaces', cfg, env={'RACES_FILE': path},
+                                workers=workers, timeout=timeout,
+                                metadir=os.path.join(d, 'm'), jvm=['-Xmx6g'])
+        gen, dist = tlc.stats(out)
+        ok = 'Model checking completed. No error has been found' in out
+        report = {}
+        for v in tlc.printed_values(out, 'TXT'):
+            report.setdefault(v[1], []).append((sorted(v[2]), list(v[3])))
+        return ok, {'transitions': gen, 'states': dist, 'wall_s': round(wall, 1)}, report, out[-3000:]
+    finally:
+        shutil.rmtree(d, ignore_errors=True)
